@@ -159,6 +159,13 @@ def c14 (args res : List String) : Verdict :=
                 | some q => q.interested != p.interested
                 | none => false
               if interestBad then fail (vProp "T2-interest-on-record-differs-from-the-peers-last-declaration" s!"op-{c}") else
+              -- "each peer's view agrees with the client's" (T5): outside a rotation the choke flag on record changes only
+              -- together with the `Unchoke` that answers this peer's bitfield
+              let viewBad := implSnap.any fun p => match s.find? (·.addr = p.addr) with
+                | some q => q.amChoked != p.amChoked &&
+                    !(c = 'b' && p.addr = a && out.startsWith "B[u]" && q.amChoked && !p.amChoked)
+                | none => false
+              if viewBad then fail (vProp "T5-choke-state-on-record-changed-without-telling-the-peer" s!"op-{c}") else
               if c = 'b' ∧ (out.startsWith "B[u]") ≠ (pre = "B[u]") ∧ snapTok s' = snapStr then
                 fail (vProp "T3-unchoke-frame-does-not-match-state-change" "bitfield")
               else if model ≠ out then fail (vDiff s!"op-{c}" model s!"op-{c}")
